@@ -103,6 +103,10 @@ def parse_transcript(text):
             replies[-1].append(('out', line[9:]))
         elif line.startswith('[stderr] '):
             replies[-1].append(('err', line[9:]))
+        elif replies[-1] and replies[-1][-1][0] in ('out', 'err'):
+            # the program's text contained a line break: this line continues the payload
+            k, t = replies[-1][-1]
+            replies[-1][-1] = (k, t + '\n' + line)
         else:
             replies[-1].append(('text',))
     return replies
@@ -321,6 +325,11 @@ def run_c12(tier):
     info['pairs-with-clear'] = {'sessions': len(ps)}
     for i in range(0, len(ps), 60):
         tasks.append(('sessions', 'pair', ps[i:i + 60]))
+    # one entered line whose output has a line break followed by a long tail (longer than a stdio buffer)
+    nl = '%s 항. ' % push(10) + ' '.join(['%s 항.' % P65] * 1100)
+    nl2 = '%s 항.. ' % push(10) + ' '.join(['%s 항..' % P66] * 1100)
+    tasks.append(('sessions', 'newline-long', [[nl], [nl2], ['%s 항.' % push(10), ' '.join(['%s 항.' % P65] * 1100)],
+                                             [nl, 'clear', nl2]]))
     n = 3 if tier == 'quick' else 4
     alpha = A20
     for L in range(0, n + 1):
